@@ -145,6 +145,27 @@ CLAIMED['C19'] = dict(
          'and judged by TLC.',
     design_ref='DESIGN.md 3 C19', note=PLACE_NOTE)
 
+SEQ_NOTE = ('Trusted: SimCluster with real Supervisor process state machines (spawn / exit / kill simulated), scripted '
+            'process behaviours, harness-level loss of publications; scenarios are seeded samples of the rules x behaviour '
+            'x trigger x loss space; the design model Sequencer.tla is abstract (one application plan) and is bound to '
+            'the code through the monitor formulas only.')
+SEQ_TECH = ('TLA+ design model Sequencer.tla exhausted by TLC (order / abort / bounded invariants, termination under '
+            'fairness) + seeded sequencing scenarios on real cores judged step by step by TLC (SequencerMon.tla)')
+CLAIMED['C03'] = dict(engine='Sequencer', technique=SEQ_TECH, design_ref='DESIGN.md 3 C03', note=SEQ_NOTE,
+    text='Start ordering at process and application level, sequence 0, and the three starting failure strategies '
+         'are formulas over requests on the wire, true Supervisor states and what the requester displays; TLC evaluates '
+         'them on every step of hundreds of real executions covering failures, unanswered requests, instance loss and '
+         'all triggers on Master and non-Master.')
+CLAIMED['C09'] = dict(engine='Sequencer', technique=SEQ_TECH, design_ref='DESIGN.md 3 C09',
+    note=SEQ_NOTE + ' Known finding F19 (Master order racing with its last publications).',
+    text='Stop ordering at both levels, stops only where the process runs, one restart / shutdown order per live '
+         'instance and only after everything is stopped or given up, judged by TLC on real 3-instance executions '
+         'with never-stopping processes and loss of a non-Master.')
+CLAIMED['C10'] = dict(engine='Sequencer', technique=SEQ_TECH, design_ref='DESIGN.md 3 C10', note=SEQ_NOTE,
+    text='Jobs flags are observed tick by tick on real cores while events are dropped, requests never answered, '
+         'processes never stop and targets are lost; TLC checks the bound computed from the configuration, termination '
+         'and the visibility of what was given up.')
+
 PENDING_REASON = 'check not built yet (work in progress; see DESIGN.md section 3)'
 
 
